@@ -4,7 +4,7 @@ file names through driver::drive on the crate's mock file server), whole command
 and every option spelling (drive, in process, and the real customasm binary in a scratch directory)."""
 import os, shutil, subprocess, json, re
 from concurrent.futures import ThreadPoolExecutor
-import vlib, translate_cli, cli_gen
+import vlib, translate_cli, cli_gen, cli_ref
 
 RULE = ("G-cli: (1) format strings = every name of the usage text and of the driver x every parameter x its whole value domain "
         "(base 0..130, group 0..2^64 and beyond, addr_unit 0..64, odd spellings, 1-part / 3-part parameters, duplicates, unknown "
@@ -18,14 +18,9 @@ RULE = ("G-cli: (1) format strings = every name of the usage text and of the dri
 
 SCRATCH = os.path.join(vlib.CACHE, "c18")
 
-# the reading of the usage text (mirrors Spec/Cli.v documented_formats; the Coq obligation C18_usage_accepted checks the model
-# against it, this copy checks the implementation)
-DOC_CTOR = {"binary": "Binary", "annotated": "Annotated", "annotatedbin": "Annotated", "binstr": "BinStr", "hexstr": "HexStr",
-            "bindump": "BinDump", "hexdump": "HexDump", "mif": "Mif", "intelhex": "IntelHex", "deccomma": "DecComma",
-            "hexcomma": "HexComma", "decspace": "DecSpace", "hexspace": "HexSpace", "decc": "DecC", "hexc": "HexC",
-            "logisim8": "LogiSim8", "logisim16": "LogiSim16", "addrspan": "AddressSpan", "tcgame": "TCGame", "tcgamebin": "TCGame",
-            "symbols": "Symbols", "mesen-mlb": "SymbolsMesenMlb"}
-DOC_EXT = {"Binary": "bin", "SymbolsMesenMlb": "mlb"}
+# the reading of the usage text / property text as an executable reference: tools/cli_ref.py (mirrors Spec/Cli.v)
+DOC_CTOR = cli_ref.DOC_CTOR
+DOC_EXT = cli_ref.DOC_EXT
 
 PROGRAMS = {
     "good": "X = 0\nY = 0\n#d8 1, 2\n",
@@ -34,9 +29,15 @@ PROGRAMS = {
 }
 # which program a given input name holds in the generated file systems
 INPUT_FILES = {"main.asm": "good", "dir/main.asm": "good", "noext": "good", "a.b.asm": "good", "main.bin": "good", "main.txt": "good",
-               "iter.asm": "iter", "err.asm": "err", "sub/iter.asm": "iter"}
+               "iter.asm": "iter", "err.asm": "err", "sub/iter.asm": "iter",
+               "proj.v2/main": "good", "./prog": "good", ".hidden": "good", "a.b/c.d/e": "good", "proj.v2/main.asm": "good"}
 CMD_INPUTS = ["main.asm"] * 6 + ["dir/main.asm", "noext", "a.b.asm", "main.bin", "main.txt", "iter.asm", "iter.asm", "err.asm",
-                                  "missing.asm", "sub/iter.asm"]
+                                  "missing.asm", "sub/iter.asm", "proj.v2/main", "./prog", ".hidden", "a.b/c.d/e", "proj.v2/main.asm"]
+# format strings just outside each documented set, run as whole command lines too (rejected before assembling, no crash)
+BOUNDARY_FORMATS = ["annotated,base:0", "annotated,base:1", "annotated,base:3", "annotated,base:129", "annotated,base:256",
+                    "annotated,group:0", "annotated,group:65536", "tcgame,base:0", "tcgame,base:1", "tcgame,base:4", "tcgame,base:8",
+                    "tcgame,group:0", "tcgame,group:65536", "intelhex,addr_unit:0", "intelhex,addr_unit:24", "intelhex,addr_unit:64",
+                    "intelhex,addr_unit:4", "annotated,base:16,group:0", "annotated,base:1,group:1"]
 
 
 def setup():
@@ -97,13 +98,26 @@ def build(chk):
     tables_v = open(os.path.join(vlib.COQ, "Model", "CliTables.v")).read()
     if "Gen.GeneratedCli" in vlib.strip_comments(tables_v):
         translate_cli.write_standalone(vlib.REPO, os.path.join(vlib.COQ, "Gen", "GeneratedCli.v"))
-    c.tables = translate_cli.tables(vlib.REPO)
+    c.degraded = None
+    try:
+        c.tables = translate_cli.tables(vlib.REPO)
+    except Exception as e:
+        # the DRIVER side can no longer be read: the tie is broken (reported), but the usage text and the property text
+        # still give an oracle for the implementation's behaviour -- the streams continue with cli_ref alone
+        usage = translate_cli.usage_tables(vlib.REPO)
+        c.degraded = repr(e)
+        c.tables = {"usage": usage, "driver": {"arms": cli_ref.usage_arms(usage)}, "undocumented_names": [], "documented_without_arm": []}
     return c
 
 
 def build_runners(c, profiles=("debug", "release")):
-    vlib.extraction("ExCli")
-    c.model = vlib.ocaml_build("cli_driver", ["cli_model"])
+    c.model = None
+    try:
+        vlib.extraction("ExCli")
+        c.model = vlib.ocaml_build("cli_driver", ["cli_model"])
+    except Exception as e:
+        if not c.degraded:              # the tables were read but the model does not build: also a broken tie
+            c.degraded = "model does not build: " + repr(e)[:600]
     c.bins = vlib.harness_build(profiles)
     c.real = vlib.customasm_build(("debug",))
     return c
@@ -119,6 +133,12 @@ def report(chk, c, what, rep, cls=None, found=True):
             n[cls] = n.get(cls, 0) + 1
             if n[cls] > 1:           # one replay per class; the count is kept in the evidence
                 return
+        else:
+            key = "%s/%s" % (rep.get("kind"), "found" if found else "tie")
+            n = chk.cov.setdefault("violations_by_kind", {})
+            n[key] = n.get(key, 0) + 1
+            if n[key] > 2:           # two replays per kind of unclassified violation; the count is kept in the evidence
+                return
         chk.violation(what, rep, found=found)
 
 
@@ -129,22 +149,32 @@ def stream_formats(chk, c):
     lines_impl = ["F\t%s\t%d" % (vlib.hx(s), rep) for s, rep, _ in cases]
     lines_model = ["F\t%s" % vlib.hx(s) for s, _, _ in cases]
     res = {p: vlib.run_lines([c.bins[p] + "/cli"], lines_impl) for p in c.bins}
-    mres = vlib.run_lines([c.model], lines_model)
+    mres = vlib.run_lines([c.model], lines_model) if c.model else [None] * len(cases)
     usage_names = {e["name"]: e for e in t["usage"]["formats"]}
     dist = {"accepted": 0, "rejected": 0, "usage_entries": 0}
+
+    def show(f):
+        return "S -" if f is None else "S " + " ".join([f[0]] + ["%x" % x for x in f[1]])
     ndis = 0
     for idx, (s, rep, tag) in enumerate(cases):
         impl = res["debug"][idx]
         if "release" in res and res["release"][idx] != impl and not impl.startswith("NONDET") and not res["release"][idx].startswith("NONDET"):
             report(chk, c, "debug and release builds disagree on -f %r" % s, {"kind": "profile-divergence", "stream": "fmt", "format": s, "debug": impl, "release": res["release"][idx]})
             continue
-        mparts = mres[idx].split("\t")
-        model, spec = mparts[0], (mparts[1] if len(mparts) > 1 else "?")
+        spec = show(cli_ref.spec_format(t["usage"], s))       # usage text + documented sets (tools/cli_ref.py)
+        model = None
+        if mres[idx] is not None:
+            mparts = mres[idx].split("\t")
+            model, xspec = mparts[0], (mparts[1] if len(mparts) > 1 else "?")
+            if not model.startswith("MODELEXN") and model not in ("?", "CRASH") and xspec != spec:
+                report(chk, c, "the Python reference (%s) and the extracted Coq spec (%s) disagree on -f %r" % (spec, xspec, s),
+                       {"kind": "format", "stream": "fmt", "format": s, "spec": spec, "extracted_spec": xspec}, found=False)
+                continue
         rp = {"kind": "format", "stream": "fmt", "format": s, "impl": impl, "model": model, "spec": spec}
         has_param = "," in s
         if has_param or s.split(",")[0] not in usage_names:
             chk.nontriv(("fmt", s))
-        if model.startswith("MODELEXN") or model in ("?", "CRASH"):
+        if model is not None and (model.startswith("MODELEXN") or model in ("?", "CRASH")):
             report(chk, c, "model runner failed on -f %r: %s" % (s, model), rp, found=False)
             continue
         # --- the spec predicates on the implementation's answer
@@ -182,7 +212,7 @@ def stream_formats(chk, c):
                 report(chk, c, "usage text entry %r should select %r, the implementation answers %s" % (s, want, impl), rp)
                 continue
         # --- correspondence with the model (which parameter the diagnostic names included)
-        if impl != model and not (impl.startswith("ERR other") and model.startswith("ERR ")):
+        if model is not None and impl != model and not (impl.startswith("ERR other") and model.startswith("ERR ")):
             ndis += 1
             cls = "leftover_param_hash_order" if (impl.startswith("ERR param") and model.startswith("ERR param")) else None
             report(chk, c, "model/implementation correspondence broken for -f %r: impl %s, model %s" % (s, impl, model),
@@ -193,7 +223,7 @@ def stream_formats(chk, c):
     chk.cov["disagreements_checked"] += ndis
     chk.cov["traces_validated_against_impl"] += len(cases)
     # the extracted obligations, evaluated once more outside Coq (so that a broken proof still yields a concrete entry)
-    u = vlib.run_lines([c.model], ["U"], shards=1)[0]
+    u = vlib.run_lines([c.model], ["U"], shards=1)[0] if c.model else ""
     if "F" in u:
         ents = [e["text"] for e in t["usage"]["formats"]] + t["usage"]["examples"]
         flags = u.replace(" ", "")
@@ -237,16 +267,24 @@ def stream_names(chk, c):
     for n, f, ctor in cases:
         argv = ["customasm", "-q"] + (["-f", f] if f else []) + [n]
         impl_lines.append("C\t%s\t%s=%s\t" % (";".join(vlib.hx(a) for a in argv), vlib.hx(n), vlib.hx(PROGRAMS["good"])))
-    mres = vlib.run_lines([c.model], model_lines)
+    mres = vlib.run_lines([c.model], model_lines) if c.model else [None] * len(cases)
     res = vlib.run_lines(capture_cmd(c.bins["debug"] + "/cli"), impl_lines)
     dist = {"derived": 0, "refused": 0}
     ndis = 0
     for idx, (n, f, ctor) in enumerate(cases):
         a = parse_answer(res[idx])
-        model, _, fn = mres[idx].partition("\t")
-        has_file_name = fn != "FN0"
+        # the property text: the input with only its file-name extension replaced, same directory, never the input itself
+        want, has_file_name = cli_ref.derive(n, ctor)
+        want = "ERR" if want is None else "OK " + vlib.hx(want)
+        model = None
+        if mres[idx] is not None:
+            model, _, fn = mres[idx].partition("\t")
+            if model != want or (fn != "FN0") != has_file_name:
+                report(chk, c, "the Python reference (%s) and the Coq model (%s) disagree on the name derived from %r (%s)" % (want, mres[idx], n, f),
+                       {"kind": "derived-name", "stream": "names", "input": n, "format": f, "reference": want, "model": mres[idx]}, found=False)
+                continue
         dist["without_file_name"] = dist.get("without_file_name", 0) + (0 if has_file_name else 1)
-        rp = {"kind": "derived-name", "stream": "names", "input": n, "format": f, "impl": a["raw"][:400], "model": model}
+        rp = {"kind": "derived-name", "stream": "names", "input": n, "format": f, "impl": a["raw"][:400], "model": model, "expected": want}
         chk.nontriv(("name", n))
         ext = DOC_EXT.get(ctor, "txt")
         if a["status"] == "OK" and len(a["writes"]) == 1:
@@ -264,7 +302,13 @@ def stream_names(chk, c):
         else:
             report(chk, c, "input %r, format %s: neither one file nor a refusal: %s" % (n, f, a["raw"][:200]), rp)
             continue
-        if impl != model:
+        if has_file_name and impl != want:
+            exp = "a refusal (it would be the input itself)" if want == "ERR" else repr(vlib.unhx(want[3:]))
+            got = "refused" if impl == "ERR" else repr(vlib.unhx(impl[3:]))
+            report(chk, c, "input %r, format %s: output name %s, but the first input with only its extension replaced (same directory) is %s" % (
+                n, f or "(default)", got, exp), rp)
+            continue
+        if model is not None and impl != model:
             ndis += 1
             report(chk, c, "model/implementation correspondence broken for the name derived from %r (%s): impl %s, model %s" % (n, f, impl, model),
                    dict(rp, theorems=["C18_derived_name"]), found=False)
@@ -461,10 +505,31 @@ def stream_commands(chk, c, need):
                 g["p"] = True
                 argv.append("-p")
             directed.append({"groups": [g], "argv": argv})
+    # just outside each documented set, and the input names of the property's quantifier, as whole command lines
+    for f in BOUNDARY_FORMATS:
+        for extra, gx in (([], {}), (["-p"], {"p": True}), (["-o", "x.out"], {"o": "x.out"})):
+            directed.append({"groups": [dict({"i": ["main.asm"], "q": True, "f": f}, **gx)], "argv": ["customasm", "main.asm", "-q", "-f", f] + extra})
+    for inp in ("proj.v2/main", "./prog", ".hidden", "a.b/c.d/e", "proj.v2/main.asm", "noext", "dir/main.asm"):
+        for f in (None, "annotated", "mesen-mlb"):
+            directed.append({"groups": [dict({"i": [inp], "q": True}, **({"f": f} if f else {}))],
+                             "argv": ["customasm", inp, "-q"] + (["-f", f] if f else [])})
+        directed.append({"groups": [{"i": [inp], "q": True}, {"f": "symbols"}], "argv": ["customasm", inp, "-q", "--", "-f", "symbols"]})
     cases = directed + cases
-    model_lines = ["C\t" + "|".join(cli_gen.group_tokens(g) for g in cs["groups"]) for cs in cases]
-    mres = vlib.run_lines([c.model], model_lines)
-    ms = [model_command(x) if not x.startswith(("MODELEXN", "?", "CRASH")) else {"kind": "MODELFAIL", "cls": x} for x in mres]
+    # the reference answer: usage text + property text (tools/cli_ref.py); the Coq model, when it can be instantiated, must agree
+    ms = [cli_ref.command(c.tables["usage"], cs["groups"]) for cs in cases]
+    mres = ["reference: " + m["cls"] if m["kind"] != "RUN" else "reference: RUN %r" % ({k: v for k, v in m.items() if k != "kind"},) for m in ms]
+    if c.model:
+        model_lines = ["C\t" + "|".join(cli_gen.group_tokens(g) for g in cs["groups"]) for cs in cases]
+        xres = vlib.run_lines([c.model], model_lines)
+        nbad = 0
+        for cs, m, x in zip(cases, ms, xres):
+            xm = model_command(x) if not x.startswith(("MODELEXN", "?", "CRASH")) else {"kind": "MODELFAIL"}
+            if {k: v for k, v in xm.items() if k != "cls"} != {k: v for k, v in m.items() if k != "cls"}:
+                nbad += 1
+                if nbad <= 3:
+                    report(chk, c, "the Python reference and the Coq model disagree on %r: reference %r, model %s" % (cs["argv"][1:], m, x[:300]),
+                           {"kind": "command", "stream": "cmd", "argv": cs["argv"], "groups": cs["groups"], "reference": repr(m), "model": x[:600]}, found=False)
+        chk.cov["reference_vs_model_disagreements"] = nbad
     impl_lines = []
     for cs, m in zip(cases, ms):
         names = [i for g in cs["groups"] for i in g.get("i", [])]
@@ -520,9 +585,10 @@ def run_real(binary, argv, root):
     before = {}
     for n, p in INPUT_FILES.items():
         path = os.path.join(root, n)
+        os.makedirs(os.path.dirname(path), exist_ok=True)
         with open(path, "w") as f:
             f.write(PROGRAMS[p])
-        before[n] = PROGRAMS[p].encode()
+        before[os.path.normpath(n)] = PROGRAMS[p].encode()
     try:
         pr = subprocess.run([binary] + argv[1:], cwd=root, stdout=subprocess.PIPE, stderr=subprocess.PIPE, timeout=60)
         rc, out, err = pr.returncode, pr.stdout, pr.stderr
@@ -634,6 +700,13 @@ def run(chk):
     chk.cov["measured_minimum_budgets"] = need
     cases, ms = stream_commands(chk, c, need)
     stream_real(chk, c, cases, ms, need)
+    if c.degraded:
+        # the broken tie itself, listed after the concrete failing inputs the streams found (if any) but within the printed five
+        chk.cov["tie_broken"] = c.degraded
+        chk.violations.insert(min(len(chk.violations), 4), (
+            "the driver side of the C18 tables can no longer be read from the source (%s): the Coq model cannot be instantiated and "
+            "Props/C18 does not build; the streams ran with the usage-text / property-text reference only" % c.degraded,
+            {"kind": "broken-tie", "error": c.degraded, "proof_failures": (chk.proof or {}).get("failures")}, False))
     for f in os.listdir(SCRATCH):
         if f.startswith("out."):
             try:
@@ -652,14 +725,18 @@ def replay(chk, rep):
     r = rep.get("replay", rep)
     c = build(chk)
     c.bins = vlib.harness_build(("debug",))
-    vlib.extraction("ExCli")
-    c.model = vlib.ocaml_build("cli_driver", ["cli_model"])
+    try:
+        vlib.extraction("ExCli")
+        c.model = vlib.ocaml_build("cli_driver", ["cli_model"])
+    except Exception:
+        c.model = None
     setup()
     kind = r.get("kind")
     if kind == "format" or r.get("stream") == "fmt":
         s = r["format"]
         now = vlib.run_lines([c.bins["debug"] + "/cli"], ["F\t%s\t8" % vlib.hx(s)], shards=1)[0]
-        mod = vlib.run_lines([c.model], ["F\t%s" % vlib.hx(s)], shards=1)[0]
+        mod = vlib.run_lines([c.model], ["F\t%s" % vlib.hx(s)], shards=1)[0] if c.model else "(model not available)"
+        print("usage-text reference: %r" % (cli_ref.spec_format(c.tables["usage"], s),))
         print("format string: %r\nimplementation now: %s\nmodel / spec now:   %s\nrecorded impl: %s  model: %s  spec: %s" % (
             s, now, mod, r.get("impl"), r.get("model"), r.get("spec")))
     elif kind == "derived-name":
